@@ -5,6 +5,7 @@ import Uhppote.Props.C12
 import Uhppote.Proofs.CodecNoPanic
 import Uhppote.Proofs.CodecImage
 import Uhppote.Proofs.CodecRoundTrip
+import Uhppote.Proofs.CodecRead
 /-! # C18 — the codec is generic over message layouts
 
 Theorems about `Model.marshal` / `Model.unmarshal` for **every** layout that can be declared with
@@ -98,6 +99,26 @@ theorem C18_injective (L : Layout) (vs vs' ws ws' : List Val) (img : Bytes)
   have b := (C18_round_trip L vs' ws' img hwf h2 hb2 hh).2
   rw [a] at b
   injection b
+
+theorem leavesOk_of_wf (ls : List Leaf) (hwf : wf ls = true) : Proofs.Codec.LeavesOk ls := by
+  simp only [wf, Bool.and_eq_true, List.all_eq_true] at hwf
+  intro l hl
+  refine ⟨hwf.1.2 l hl, fun o w he => ?_⟩
+  have := hwf.1.1.1 (o, w) (by rw [List.mem_filterMap]; exact ⟨l, hl, he⟩)
+  simpa using this
+
+/-- (iii′) **decoding is sound on every byte string**: for every well-formed layout and EVERY byte
+    string of any length, what `Unmarshal` returns is accepted by the specification's decoding
+    relation `Spec.Codec.acceptsUnmarshal` — a returned value has, field by field, exactly the
+    protocol decoding of that field's bytes (in-domain bytes), or "no value" for the sentinels, or
+    the zero value for out-of-domain bytes of the nil-tolerant kinds; an error is returned only if the
+    header is wrong or some field is out of its domain / has the wrong fixed value; never a panic.
+    In particular an out-of-domain field is never reported as a different in-domain value. -/
+theorem C18_unmarshal_sound (L : Layout) (hwf : wf L.leaves = true) (bytes : Bytes) :
+    acceptsUnmarshal L.leaves bytes
+      (Proofs.Codec.toResult (unmarshal Gen.codecFacts C12.genTables wireBounds L bytes)) = true := by
+  rw [C18_facts, C12.C12_tables.1, C18_hhmm_bounds]
+  exact Proofs.Codec.unmarshal_sound L (leavesOk_of_wf _ hwf) bytes
 
 /-- (iv-a) value tags on encode: a decimal or hexadecimal `value:` tag is what is emitted — this
     is part of `image` (`leafWire` of a tagged SOM / MsgType / byte field is its tag value) -/
